@@ -3,5 +3,8 @@ CONSTANTS
   BITS = 4
   CAP = 2
   ASIS = FALSE
-INVARIANT QInv
+INVARIANT QBound
+INVARIANT QNoDup
+INVARIANT QStatic
+INVARIANT PopSafe
 CHECK_DEADLOCK FALSE
